@@ -56,30 +56,27 @@ def check(ctx, rule):
         names = {U(c.func).split('.')[-1] for c in calls}
         # (b) len(coords): the include_stop form
         if isinstance(v, ast.Call) and U(v.func) == 'len' and v.args and U(v.args[0]) == coords:
-            tests = []
-            n = r
-            from .core import parent
-            while n is not None and n is not f.node:
-                p = parent(n)
-                if isinstance(p, ast.If) and any(n is s for s in p.body):
-                    tests.append(p.test)
-                n = p
+            # what holds on every path reaching this return (nested ifs, guard clauses and De Morgan forms alike)
+            paths = fm.paths_at(r) or []
+            okp = bool(paths)
             conj = []
-            for t in tests:
-                conj.extend(t.values if isinstance(t, ast.BoolOp) and isinstance(t.op, ast.And) else [t])
-            flag = any(isinstance(t, ast.Name) and t.id in f.params[2:] for t in conj)
-            eqs = [t for t in conj if isinstance(t, ast.Compare) and len(t.ops) == 1 and
-                   coord in (U(t.left), U(t.comparators[0]))]
-            approx = [t for t in conj if any(isinstance(c, ast.Call) and U(c.func).split('.')[-1] in APPROX
-                                             for c in ast.walk(t))]
-            if flag and eqs and all(isinstance(t.ops[0], ast.Eq) for t in eqs) and not approx:
-                other = [U(t.comparators[0]) if U(t.left) == coord else U(t.left) for t in eqs][0]
-                if coords + '[-1]' in other:
-                    ctx.ok(rule, f, r, 'len(%s) only for the exact one-past-the-end coordinate under the include-stop flag' % coords)
-                    continue
+            for facts in paths:
+                flag = any(a[0] == 'T' and a[1] in f.params[2:] for a in facts)
+                eqs = [a for a in facts if a[0] == '==' and coord in (a[1], a[2])]
+                stop_eq = [a for a in eqs if (coords + '[-1]') in (a[2] if a[1] == coord else a[1])]
+                approx = [a for a in facts if a[0] in ('T', 'F', '<', '<=', '>', '>=') and
+                          any(k + '(' in ' '.join(str(x) for x in a[1:]) for k in APPROX)]
+                conj = sorted(' '.join(str(x) for x in a) for a in facts if a[0] in ('T', 'F', '==', '!=', '<', '<=', '>', '>='))
+                if not (flag and stop_eq and not approx):
+                    okp = False
+                    break
+            if okp:
+                ctx.ok(rule, f, r, 'len(%s) only for the exact one-past-the-end coordinate under the include-stop flag' % coords)
+                continue
+            conj = [ast.parse('x', mode='eval').body] if False else conj
             ctx.fail(rule, f, r, 'coord_to_index returns len(%s) under `%s`: the one-past-the-end ordinal must require the '
                      'include-stop flag and exact equality with the extrapolated stop coordinate' % (
-                         coords, ' and '.join(U(t) for t in conj)[:100]))
+                         coords, ' and '.join(str(t) for t in conj)[:100]))
             continue
         # (a) exact-equality search
         searches = [c for c in calls if U(c.func).split('.')[-1] in SEARCH]
